@@ -159,7 +159,7 @@ class IdProp(PropBase):
         tbl, ambiguous = rec.table()
         return est, code, exc, tbl, ambiguous, mutated
 
-    def owned_objects_unchanged(self, case):
+    def owned_objects_unchanged(self, case, expect=None):
         """Hand identify() an Identification/Query built by the caller and check that neither it nor the graph changes,
         and that asking the same object again gives the same verdict."""
         from y0.algorithm.identify import Identification, Query, Unidentifiable, identify
@@ -182,6 +182,10 @@ class IdProp(PropBase):
         second = ask()
         if first.startswith("exception") != second.startswith("exception") or (first == "unidentifiable") != (second == "unidentifiable"):
             return f"asking the same Identification twice gives {first!r} then {second!r}"
+        if expect is not None:
+            kind = "exception" if first.startswith("exception") else ("unidentifiable" if first == "unidentifiable" else "estimand")
+            if kind != expect:
+                return f"identify(Identification(...)) gives {first!r} where identify_outcomes() gave {expect}: the two entry points disagree"
         return None
 
     def run(self, case):
@@ -193,9 +197,9 @@ class IdProp(PropBase):
         elif mutated:
             violation, key = "identify_outcomes modified the caller's graph or query", "C02/mutation"
         if violation is None:
-            own = self.owned_objects_unchanged(case)
+            own = self.owned_objects_unchanged(case, "exception" if exc else ("estimand" if est is not None else "unidentifiable"))
             if own:
-                violation, key = own, "C02/mutation"
+                violation, key = own, ("C02/entry-points" if "entry points" in own else "C02/mutation")
         want = IDENT.identifiable(g, X, Y)
         if violation is None and (est is not None) != want:
             violation = (f"ID {'returned an estimand' if est is not None else 'refused'} but the effect is "
